@@ -18,6 +18,24 @@ EXC = {('akd::directory::Directory::publish', 'StorageManager::rollback_transact
 def run(ctx):
     ds.transaction_bracket(ctx, 'C10')
     ds.commit_is_last_fallible(ctx, 'C10')
+    commit_single_write(ctx)
     ss.cache_after_db(ctx, 'C10')
     ds.join_rules(ctx, 'C10')
     ds.err_discipline(ctx, 'C10', ['akd::directory::', 'akd::append_only_zks::', 'akd::tree_node::', 'akd::storage::manager::'], EXC)
+
+
+def commit_single_write(ctx):
+    """the property's fault model is "the commit write failing as a whole": the
+    commit must hand the database the complete log in ONE batch_set — a second
+    write (e.g. the epoch record on its own) can fail after the first succeeded,
+    leaving tree nodes of an epoch that was never committed"""
+    from analysis.rulelib import find_events, arg, spec_match
+    from analysis.mir import show
+    prog = ctx.prog
+    cm = prog.fn_and_inner(ss.SM + 'commit_transaction')
+    ws = [(ev, c) for cal in ss.DB_WRITES for ev, c in find_events(cm, cal)]
+    ok = len(ws) == 1 and spec_match(arg(ws[0][1], 1), ('try', ('call', 'Transaction::commit_transaction', ['self.transaction'])))
+    ctx.ob('C10.ORDER.commit_single_write', 'RF-ORDER', ok, cm.path, '%s:%s' % (cm.file, cm.line),
+           'commit hands the whole sorted log to the database in one batch_set' if ok else
+           'commit performs %d database writes / does not write the whole log at once: %s' % (len(ws), [show(c)[:80] for ev, c in ws]),
+           key='RF-ORDER|C10.commit_single_write')
